@@ -16,6 +16,9 @@ func verifGetMigrations(selfPeer peer.ID) (versioning.VersionedMigrationList, er
 
 func peerID(s string) peer.ID { return peer.ID(s) }
 
+// VerifRecord lets harnesses outside channels/ name the internal record type.
+type VerifRecord = internal.ChannelState
+
 // VerifNumEvents is the number of event codes (0..VerifNumEvents-1).
 const VerifNumEvents = int(datatransfer.SendMessageError) + 1
 
